@@ -111,7 +111,7 @@ func loadKnown(path string) ([]*knownFinding, error) {
 }
 
 // Finish applies vacuity guards and known findings, prints verdict lines, writes evidence, returns exit code.
-func (r *Report) Finish(c *Ctx, tier string, seed int, wall float64, verifDir string, extra map[string]interface{}) int {
+func (r *Report) Finish(c *Ctx, tier string, seed int, wall float64, verifDir, outDir string, extra map[string]interface{}) int {
 	// vacuity guards
 	counts := map[string]int{}
 	for _, o := range r.Obls {
@@ -133,7 +133,7 @@ func (r *Report) Finish(c *Ctx, tier string, seed int, wall float64, verifDir st
 		fmt.Println("cannot read known_findings.txt:", err)
 		return 2
 	}
-	replayDir := filepath.Join(verifDir, "evidence", "replay")
+	replayDir := filepath.Join(outDir, "evidence", "replay")
 	os.MkdirAll(replayDir, 0o755)
 	// clean old replay files of this property
 	if old, _ := filepath.Glob(filepath.Join(replayDir, r.Prop+"-*.json")); old != nil {
@@ -231,7 +231,7 @@ func (r *Report) Finish(c *Ctx, tier string, seed int, wall float64, verifDir st
 		"wall_s": wall, "violations": viol,
 	}
 	b, _ := json.MarshalIndent(ev, "", " ")
-	evp := filepath.Join(verifDir, "evidence", r.Prop+".json")
+	evp := filepath.Join(outDir, "evidence", r.Prop+".json")
 	if err := os.WriteFile(evp, b, 0o644); err != nil {
 		fmt.Println("cannot write evidence:", err)
 		return 2
